@@ -4,7 +4,7 @@ import os, re, time, subprocess, shutil, threading, json
 from concurrent.futures import ThreadPoolExecutor
 import common
 
-KANI_MEM_KB = int(os.environ.get('VERIF_KANI_MEM_GB', '14')) * 1024 * 1024
+KANI_MEM_KB = int(os.environ.get('VERIF_KANI_MEM_GB', '22')) * 1024 * 1024   # ulimit -v (virtual): the large search harnesses map ~1.5x their 10-12 GB RSS
 
 
 class H:
@@ -92,7 +92,7 @@ class EngineB:
 
     def run(s, harnesses, workers=None):
         ck = s.ck
-        workers = workers or min(8, max(2, common.NCPU // 2))
+        workers = workers or min(6, max(2, common.NCPU // 2))
         lock = threading.Lock()
         for u in {h.unsafe for h in harnesses}:
             s.overlay(u)
